@@ -246,6 +246,28 @@ def derive_history_case(ck, case, out):
                    observed={"same object": same, "cell.adjacency_list left by the history": out["adj_cached"]})
     d = dict(case)
     d["orig"] = case
+    # whatever the history did (earlier sectioning included), the segments may only have gained explicit proximals equal to
+    # their effective proximal; anything else is already a violation, and the measured call is then judged on the
+    # original cell
+    ref0 = case.get("ref") or reference(case["segs"])
+    altered = None
+    if [x[0] for x in pre_segs] != [x[0] for x in case["segs"]]:
+        altered = ("segment-order", [x[0] for x in case["segs"]], [x[0] for x in pre_segs])
+    else:
+        for b, a in zip(case["segs"], pre_segs):
+            if (b[1], b[2], b[4]) != (a[1], a[2], a[4]) or (b[3] is not None and a[3] != b[3]) or \
+                    (b[3] is None and a[3] is not None and a[3] != ref0["aprox"][b[0]]):
+                altered = ("segment %d" % b[0], jq(b), jq(a))
+                break
+    if altered is not None:
+        ck.witness("C16:history:earlier-call-altered-the-segments",
+                   "after the history %s the cell's segments differ from the original by more than explicit effective "
+                   "proximals (%s)" % (json.dumps(case["history"]), altered[0]),
+                   input=payload(case), expected=altered[1], observed=altered[2])
+        d["segs"], d["groups"] = [list(x) for x in case["segs"]], out["pre_groups"]
+        d["ref"] = ref0
+        d["history"] = case["history"]
+        return d
     d["segs"], d["groups"] = pre_segs, out["pre_groups"]
     d["ref"] = reference(pre_segs)
     d["history"] = case["history"]
